@@ -8,9 +8,9 @@ import fnmatch, json, os, random, re, subprocess, tempfile, time, shutil
 from common import *
 
 
-def run(pid, tier, spec, replay_file=None, write=True):
+def run(pid, tier, spec, replay_file=None, write=True, clear=True):
     t0 = time.time()
-    if not replay_file:
+    if not replay_file and clear:
         clear_replays(pid)
     harness = build_harness()
     mod, kind = spec['module'], spec['kind']
@@ -73,7 +73,7 @@ def run(pid, tier, spec, replay_file=None, write=True):
         shown.setdefault(sig, []).append(o)
     nv = 0
     for sig, os_ in list(shown.items())[:10]:
-        path = save_replay(pid, 's%d-%d' % (seed(), nv), {'property': pid, 'signature': sig, 'cases': [x['case'] for x in os_[:20]],
+        path = save_replay(pid, '%s-s%d-%d' % (spec['module'], seed(), nv), {'property': pid, 'module': spec['module'], 'signature': sig, 'cases': [x['case'] for x in os_[:20]],
                                                           'observations': os_[:20]})
         print('VIOLATION property=%s replay=%s' % (pid, path))
         log('  %d observation(s) rejected by %s!Ok: %s' % (len(os_), mod, sig))
